@@ -153,6 +153,9 @@ pub fn bytes_to_escaped_string_ex(bytes: &[u8], offset: usize, escapes: &[i64], 
         }
 		if bytes[idx] == BACKSLASH && idx + 3 < bytes.len() {
             let is_hex = |x_neg: u8| -> bool {
+                if x_neg < 128 {
+                    return false;
+                }
                 let x = x_neg - 128;
                 x>=48 && x<=57 || x>=65 && x<=70 || x>=97 && x<=102
             };
